@@ -126,6 +126,16 @@ func StrXor(a, b *Term) *Term {
 	if t, ok := liftIte([]*Term{a, b}, func(x []*Term) *Term { return StrXor(x[0], x[1]) }); ok {
 		return t
 	}
+	if isLit(a) && isLit(b) {
+		x, y := litBytes(a), litBytes(b)
+		if len(x) == len(y) {
+			z := make([]byte, len(x))
+			for i := range x {
+				z[i] = x[i] ^ y[i]
+			}
+			return StrLit(z)
+		}
+	}
 	if a.id > b.id {
 		a, b = b, a
 	}
